@@ -803,6 +803,17 @@ func (ev *SpecEnv) call(n *Node) Val {
 		ty := ex.resolveType(n.Args[1].String(), ev.pkg)
 		pred := c.implPred(ty)
 		return Val{T: smtAnd(smtNot(sx("=", x.T, "iface_nil")), sx(pred, sx("typeof", x.T))), S: sortBool, Ty: tb}
+	case "iface_of":
+		// iface_of(x): x boxed into an interface value of its static type (what passing x as interface{} does)
+		x := ev.eval(n.Args[0])
+		if x.Ty == nil {
+			specFail("iface_of: value of unknown type")
+		}
+		if x.S == sortIfc {
+			return x
+		}
+		bx, _ := c.boxFns(x.Ty)
+		return Val{T: sx(bx, x.T), S: sortIfc, Ty: types.NewInterfaceType(nil, nil)}
 	case "unbox":
 		// unbox(i, T): the value of concrete type T held by interface i
 		x := ev.eval(n.Args[0])
